@@ -1114,6 +1114,13 @@ impl TryFrom<CBOR> for ARID {
     { unimplemented!() }
 }
 impl CBOR {
+    // [A-try-into-tagged-value] Ok((tag, item)) iff the item is Tagged(tag, item)
+    #[verifier::external_body]
+    pub fn try_into_tagged_value(self) -> (r: Result<(Tag, CBOR)>)
+        ensures
+            *self.0 is Tagged ==> (r matches Ok(p) && p.0.value == self.s_tag() && p.1 == self.s_inner()),
+            !(*self.0 is Tagged) ==> r is Err,
+    { unimplemented!() }
     // [A-try-into-expected-tagged-value] Ok(item) iff the item is Tagged(tag, item)
     #[verifier::external_body]
     pub fn try_into_expected_tagged_value(self, tag: u64) -> (r: Result<CBOR>)
